@@ -7,6 +7,12 @@ TRUST = ("Trusted base: Go runtime and testing/synctest (quiescence + fake clock
          "evaluators. Preemption at Go statement / loop / function entry / VM instruction granularity; sampled, not enumerated.")
 
 CLAIMED = {
+    "C01": dict(
+        engine="E-CHAOS",
+        technique="deterministic simulation with fault injection: concurrent programs run under hostile knobs, seeded schedules including starvation, cancellation at a seeded tick and clock jumps; crash monitor (Go panic in any task, worker process death) as the only oracle",
+        text="Claimed as a slice: programs whose crash-freedom depends on a coincidence the simulator controls (schedule, cancellation instant, timers, knob extremes, primitives used across threads). Ten chaos templates plus the generators of the other engines run with tiny stacks, pool and queue of 1, a cancel at a PRNG-chosen tick and clock jumps; a Go panic that reaches the top of any goroutine, or the death of the worker process, is a violation (stack-limit reports excepted). Sequential crash-freedom over all programs is input generation and is not claimed. Exploration level.",
+        design_ref="DESIGN.md 5.10",
+    ),
     "C10": dict(
         engine="E-KNOB",
         technique="deterministic simulation with randomised tuning knobs and fault injection: knob vector (stack sizes, pool, queue, presize) drawn per run, forced value-stack reallocations at seeded calls (failpoint), seeded schedules; differential oracle against the default configuration",
@@ -63,8 +69,7 @@ CLAIMED = {
     ),
 }
 
-PLANNED = {pid: "simulation check designed in DESIGN.md section 5, engine not built yet" for pid in
-           ["C01"]}
+PLANNED = {}
 
 NA = {
     "C02": "pure function of one program run by one thread: no schedule, clock or fault in what it quantifies over (type soundness per program)",
